@@ -1,6 +1,8 @@
 import Utv.GenEq.Support
 import Utv.Gen.Field
 import Utv.Gen.Options
+import Utv.Gen.Parse
+import Utv.Gen.FunctionalObj
 import Utv.Model.C05
 /-!
 C05 — T1 obligations: the field predicates of the hand model (`Model/C05.lean`: `isNoInput isNoOutput alwaysNoInput
@@ -43,6 +45,10 @@ def encOptVal : Option V → OVal V
   | none => .unprovided
   | some d => .val d
 
+def encOptNat : Option Nat → OVal V
+  | none => .none
+  | some n => .int n
+
 /-- the `ParserField` a `PField` stands for -/
 def encField (f : PField V) : OVal V :=
   .obj "ParserField" [
@@ -55,7 +61,11 @@ def encField (f : PField V) : OVal V :=
     ("mode", match f.mode with | none => .none | some ms => encLetters ms),
     ("final", .bool false),
     ("on_error", match f.onError with | none => .none | some e => encOnErr e),
-    ("setup_case_insensitive", .bool f.ci)]
+    ("setup_case_insensitive", .bool f.ci),
+    -- what `parse_value` reads besides: not deprecated, no discriminator; the declared type (by its id) or None
+    ("field", .obj "Field" [("deprecated", .bool false)]), ("deprecated_to", .none),
+    ("type", match f.ty with | none => .none | some t => .cls t), ("discriminator_map", .none),
+    ("name", .int f.name), ("EXCLUDED", .obj "Excluded" [])]
 
 /-- the `Options` an `Opts` stands for (attributes the predicates read) -/
 def encOpts (o : Opts V) : OVal V :=
@@ -66,7 +76,10 @@ def encOpts (o : Opts V) : OVal V :=
     ("defer_default", .bool o.deferDefault),
     ("force_default", encOptVal o.forceDefault),
     ("invalid_values", encOnErr o.invalidValues),
-    ("case_insensitive", .bool o.caseInsensitive)]
+    ("case_insensitive", .bool o.caseInsensitive),
+    ("EXCLUDE", .str "exclude"), ("PRESERVE", .str "preserve"),
+    ("addition", match o.addition with | .ignore => .none | .allow => .bool true | .forbid => .bool false),
+    ("collect_errors", .bool o.collectErrors), ("max_errors", encOptNat o.maxErrors)]
 
 def flagLetters : Flag → List Nat
   | .modes ms => ms
@@ -102,7 +115,7 @@ example (W5 : C05.World V) : WorldOk (encWorld W5) W5 := fun _ _ => rfl
 
 /-- `LettersOk` is satisfiable: mode 'r' (114) against a field with `mode='rw'`, `no_input='w'` -/
 example : LettersOk ({ mode := some 114 } : Opts Unit)
-    { attname := 0, name := 0, allAliases := [], aliases := [], ci := false, required := .yes, default := none,
+    { attname := 0, ty := none, name := 0, allAliases := [], aliases := [], ci := false, required := .yes, default := none,
       deferDefault := false, noInput := .modes [119], noOutput := .no, mode := some [114, 119], deps := [],
       onError := none } := by
   simp [LettersOk, okL, flagLetters, reqLetters]
@@ -145,7 +158,7 @@ macro "field_simp" "[" ls:Lean.Parser.Tactic.simpLemma,* "]" : tactic =>
 theorem C05_gen_always_no_input (W : Obj.World V) (o : Opts V) (f : PField V) (hl : LettersOk o f) :
     Field.always_no_input W (encField f) (encOpts o) = .ok (.bool (alwaysNoInput Legacy.none o f)) := by
   gen_obligation "C05_gen_always_no_input: the regenerated code (Utv.Gen) is no longer equal to the hand model here" by
-    obtain ⟨_, _, _, _, ci, required, default, deferDefault, noInput, noOutput, mode, _, onError⟩ := f
+    obtain ⟨_, _, _, _, _, ci, required, default, deferDefault, noInput, noOutput, mode, _, onError⟩ := f
     obtain ⟨omode, _, ir, nd, dd, fd, _, _, _, _, _, iv, _, oci⟩ := o
     simp only [LettersOk] at hl
     cases noInput <;> cases omode <;> cases mode <;>
@@ -157,7 +170,7 @@ theorem C05_gen_is_required (W : Obj.World V) (o : Opts V) (f : PField V) (hl : 
     rw [Field.is_required, C05_gen_always_no_input W o f hl]
     unfold isRequired
     generalize alwaysNoInput Legacy.none o f = ani
-    obtain ⟨_, _, _, _, ci, required, default, deferDefault, noInput, noOutput, mode, _, onError⟩ := f
+    obtain ⟨_, _, _, _, _, ci, required, default, deferDefault, noInput, noOutput, mode, _, onError⟩ := f
     obtain ⟨omode, _, ir, nd, dd, fd, _, _, _, _, _, iv, _, oci⟩ := o
     simp only [LettersOk] at hl
     cases ir <;> cases required <;> cases omode <;> cases ani <;>
@@ -168,7 +181,7 @@ theorem C05_gen_is_no_input (W : Obj.World V) (W5 : C05.World V) (hw : WorldOk W
     (v : V) (hl : LettersOk o f) :
     Field.is_no_input W (encField f) (.val v) (encOpts o) = .ok (.bool (isNoInput Legacy.none W5 o f v)) := by
   gen_obligation "C05_gen_is_no_input: the regenerated code (Utv.Gen) is no longer equal to the hand model here" by
-    obtain ⟨_, _, _, _, ci, required, default, deferDefault, noInput, noOutput, mode, _, onError⟩ := f
+    obtain ⟨_, _, _, _, _, ci, required, default, deferDefault, noInput, noOutput, mode, _, onError⟩ := f
     obtain ⟨omode, _, ir, nd, dd, fd, _, _, _, _, _, iv, _, oci⟩ := o
     simp only [LettersOk] at hl
     cases noInput <;> cases omode <;> cases mode <;>
@@ -178,7 +191,7 @@ theorem C05_gen_is_no_output (W : Obj.World V) (W5 : C05.World V) (hw : WorldOk 
     (v : V) (hl : LettersOk o f) :
     Field.is_no_output W (encField f) (.val v) (encOpts o) = .ok (.bool (isNoOutput Legacy.none W5 o f v)) := by
   gen_obligation "C05_gen_is_no_output: the regenerated code (Utv.Gen) is no longer equal to the hand model here" by
-    obtain ⟨_, _, _, _, ci, required, default, deferDefault, noInput, noOutput, mode, _, onError⟩ := f
+    obtain ⟨_, _, _, _, _, ci, required, default, deferDefault, noInput, noOutput, mode, _, onError⟩ := f
     obtain ⟨omode, _, ir, nd, dd, fd, _, _, _, _, _, iv, _, oci⟩ := o
     simp only [LettersOk] at hl
     cases noOutput <;> cases omode <;> cases mode <;>
@@ -192,14 +205,14 @@ theorem C05_gen_get_default (W : Obj.World V) (o : Opts V) (f : PField V) (defer
       | some d => W.ext "copy_value" [.val d]
       | none => .ok .unprovided := by
   gen_obligation "C05_gen_get_default: the regenerated code (Utv.Gen) is no longer equal to the hand model here" by
-    obtain ⟨_, _, _, _, ci, required, default, deferDefault, noInput, noOutput, mode, _, onError⟩ := f
+    obtain ⟨_, _, _, _, _, ci, required, default, deferDefault, noInput, noOutput, mode, _, onError⟩ := f
     obtain ⟨omode, _, ir, nd, dd, fd, _, _, _, _, _, iv, _, oci⟩ := o
     cases defer <;> cases nd <;> cases dd <;> cases deferDefault <;> cases fd <;> cases default <;> field_simp []
 
 theorem C05_gen_get_on_error (W : Obj.World V) (o : Opts V) (f : PField V) :
     Field.get_on_error W (encField f) (encOpts o) = .ok (encOnErr (getOnError o f)) := by
   gen_obligation "C05_gen_get_on_error: the regenerated code (Utv.Gen) is no longer equal to the hand model here" by
-    obtain ⟨_, _, _, _, ci, required, default, deferDefault, noInput, noOutput, mode, _, onError⟩ := f
+    obtain ⟨_, _, _, _, _, ci, required, default, deferDefault, noInput, noOutput, mode, _, onError⟩ := f
     obtain ⟨omode, _, ir, nd, dd, fd, _, _, _, _, _, iv, _, oci⟩ := o
     cases onError with
     | none => field_simp []
@@ -214,19 +227,15 @@ theorem C05_gen_is_case_insensitive (W : Obj.World V) (o : Opts V) (f : PField V
 
 /-- … and that decision is `mkField`'s: the field's own `case_insensitive=` if given, else the declaring class's
 options (`setup`, field.py, stores what `is_case_insensitive` answers before the set-up) -/
-theorem C05_gen_is_case_insensitive_setup (W : Obj.World V) (W5 : C05.World V) (o : Opts V) (d : FieldDecl V) :
+theorem C05_gen_is_case_insensitive_setup (W : Obj.World V) (W5 : C05.World V) (o : Opts V) (ann : List (Key × Nat)) (d : FieldDecl V) :
     Field.is_case_insensitive W
       (.obj "ParserField" [("setup_case_insensitive", .none),
         ("case_insensitive", match d.ci with | none => .none | some b => .bool b)]) (encOpts o)
-      = .ok (.bool (mkField W5 o d).ci) := by
+      = .ok (.bool (mkField W5 o ann d).ci) := by
   gen_obligation "C05_gen_is_case_insensitive_setup: the regenerated code (Utv.Gen) is no longer equal to the hand model here" by
     cases h : d.ci <;> field_simp [mkField, h]
 
 /-! ### `Options.__init__` normalisation (`Opts.normalise`) -/
-
-def encOptNat : Option Nat → OVal V
-  | none => .none
-  | some n => .int n
 
 /-- the keyword arguments `Options(...)` is called with for an `Opts` of the model -/
 def encKw (o : Opts V) : List (String × OVal V) := [
@@ -304,5 +313,203 @@ theorem C05_gen_options_init (W : Obj.World V) (self : OVal V) (o : Opts V)
         all_goals (try grind)
     simp only [key, field, Opts.normalise]
     obj_simp [getattr, lookupAttr]
+
+/-! ### `parse_value` / `parse_addition` under a *collecting* context: what is stored and which errors are handled -/
+
+/-- a context with the errors handled so far, under the options `o` -/
+def encCtx (o : Opts V) (errors : List (OVal V)) : OVal V :=
+  .obj "RuntimeContext" [("errors", .seq .list errors), ("tmp_errors", .seq .list []), ("options", encOpts o)]
+
+/-- a *collecting* run: `collect_errors=True`, no `max_errors` — `handle_error` records and goes on -/
+def Collecting (o : Opts V) : Prop := o.collectErrors = true ∧ o.maxErrors = none
+
+/-- which model error an error object in the context's list stands for (for the key / field name `k`) -/
+def errOf (k : Key) : OVal V → Option Err
+  | .obj "ExceedError" _ => some (.exceed k)
+  | .obj "ParseError" _ => some (.parse k)
+  | _ => none
+
+def errsOf (k : Key) (ctx : OVal V) : List Err :=
+  match getattr ctx "errors" with
+  | .ok (.seq _ es) => es.filterMap (errOf k)
+  | _ => []
+
+def optOf : OVal V → Option V
+  | .val v => some v
+  | _ => none
+
+/-- `parse_addition`: the value kept (if any) and the errors handled, as the model's pair -/
+def decodeAdd (k : Key) : OVal V × Obj.Outcome V → Option V × List Err
+  | (ctx, .ret v) => (optOf v, errsOf k ctx)
+  | (ctx, .raise _) => (none, errsOf k ctx)
+
+structure AddWorldOk (W : Obj.World V) (W5 : C05.World V) (k : Key) (ctx : OVal V) : Prop where
+  enter : W.ext "enter" [ctx, .int k, .none] = .ok (.obj "RuntimeContext" [("transformer", .fn 0)])
+  conv : ∀ x, W.call (.fn 0) [.val x, .cls 0] =
+    match W5.addConv x with
+    | some y => .ok (.val y)
+    | none => .error .typeError
+
+theorem C05_gen_parse_addition (W : Obj.World V) (W5 : C05.World V) (P : Parser V) (o : Opts V) (k : Key) (v : V)
+    (hcol : Collecting o) (hw : AddWorldOk W W5 k (encCtx o [])) :
+    (Parse.parse_addition W
+        (.obj "ClassParser" [("exclude_vars", .seq .list []), ("addition_type", if P.additionTyped then .cls 0 else .none)])
+        (.int k) (.val v) (encCtx o [])).map (decodeAdd k)
+      = .ok (parseAddition W5 P o k v) := by
+  gen_obligation "C05_gen_parse_addition: the regenerated code (Utv.Gen) is no longer equal to the hand model here" by
+    have he := hw.enter
+    have hc := hw.conv v
+    obtain ⟨omode, ad, ir, nd, dd, fd, iac, ce, me, mxp, mnp, iv, dfs, oci⟩ := o
+    obtain ⟨h1, h2⟩ := hcol
+    simp only at h1 h2
+    subst h1 h2
+    cases ad <;> cases hat : P.additionTyped <;> cases hconv : W5.addConv v <;> rw [hconv] at hc <;> cases iv <;>
+      simp only [encCtx, encOpts, encOnErr, encOptNat] at he <;>
+      obj_simp [Parse.parse_addition, Options.handle_error, encCtx, encOpts, encOptNat, encOnErr, getattr, setattr, lookupAttr, setAttrL, append,
+        contains, memS, OVal.isFalse, he, hc, eq, eqS, decodeAdd, errsOf, errOf, optOf, Except.map, parseAddition, hat, hconv,
+        tryCatch, tryCatchThe, MonadExceptOf.tryCatch, Except.tryCatch, Exc.isA, len, ge, le, OVal.isNone] <;> rfl
+
+/-- `parse_value(value, context, excluded_as_absent=True)`: value to store (if any), errors handled, and whether the
+value was dropped by the 'exclude' policy (`EXCLUDED`) -/
+def decodePV (k : Key) : OVal V × Obj.Outcome V → Option V × List Err × Bool
+  | (ctx, .ret (.obj "Excluded" _)) => (none, errsOf k ctx, true)
+  | (ctx, .ret v) => (optOf v, errsOf k ctx, false)
+  | (ctx, .raise _) => (none, errsOf k ctx, false)
+
+structure PVWorldOk (W : Obj.World V) (W5 : C05.World V) (f : PField V) (ctx : OVal V) : Prop where
+  enter : W.ext "enter" [ctx, .int f.name, .none] = .ok (.obj "RuntimeContext" [("transformer", .fn 0)])
+  conv : ∀ t x, W.call (.fn 0) [.val x, .cls t] =
+    match W5.fp t x with
+    | some y => .ok (.val y)
+    | none => .error .typeError
+  copy : ∀ v, W.ext "copy_value" [v] = .ok v
+
+theorem getattr_ctx_options (o : Opts V) (es : List (OVal V)) : getattr (encCtx o es) "options" = .ok (encOpts o) := by
+  simp [encCtx, getattr, lookupAttr, pure, Except.pure]
+
+section attrs
+variable (f : PField V)
+theorem ga_field : getattr (encField f) "field" = .ok (.obj "Field" [("deprecated", .bool false)]) := by
+  simp [encField, getattr, lookupAttr, pure, Except.pure]
+theorem ga_deprecated : getattr (OVal.obj "Field" [("deprecated", (.bool false : OVal V))]) "deprecated" = .ok (.bool false) := rfl
+theorem ga_type : getattr (encField f) "type" = .ok (match f.ty with | none => .none | some t => .cls t) := by
+  simp [encField, getattr, lookupAttr, pure, Except.pure]
+theorem ga_dmap : getattr (encField f) "discriminator_map" = .ok .none := by
+  simp [encField, getattr, lookupAttr, pure, Except.pure]
+theorem ga_name : getattr (encField f) "name" = .ok (.int f.name) := by
+  simp [encField, getattr, lookupAttr, pure, Except.pure]
+theorem ga_excluded : getattr (encField f) "EXCLUDED" = .ok (.obj "Excluded" []) := by
+  simp [encField, getattr, lookupAttr, pure, Except.pure]
+theorem ga_transformer : getattr (OVal.obj "RuntimeContext" [("transformer", (.fn 0 : OVal V))]) "transformer" = .ok (.fn 0) := rfl
+theorem ga_exclude (o : Opts V) : getattr (encOpts o) "EXCLUDE" = .ok (.str "exclude") := by
+  simp [encOpts, getattr, lookupAttr, pure, Except.pure]
+theorem ga_preserve (o : Opts V) : getattr (encOpts o) "PRESERVE" = .ok (.str "preserve") := by
+  simp [encOpts, getattr, lookupAttr, pure, Except.pure]
+end attrs
+
+/-- `handle_error` of a collecting context records the error and returns -/
+theorem handle_error_collecting (W : Obj.World V) (o : Opts V) (hcol : Collecting o) (es : List (OVal V)) (e : OVal V) :
+    Options.handle_error W (encCtx o es) e (.bool false) = .ok (encCtx o (es ++ [e]), .ret .none) := by
+  obtain ⟨omode, ad, ir, nd, dd, fd, iac, ce, me, mxp, mnp, iv, dfs, oci⟩ := o
+  obtain ⟨h1, h2⟩ := hcol
+  simp only at h1 h2
+  subst h1 h2
+  obj_simp [Options.handle_error, encCtx, encOpts, encOptNat, getattr, setattr, lookupAttr, setAttrL, append, OVal.isNone]
+
+theorem C05_gen_parse_value (W : Obj.World V) (W5 : C05.World V) (o : Opts V) (f : PField V) (v : V)
+    (hl : LettersOk o f) (hcol : Collecting o) (hw : PVWorldOk W W5 f (encCtx o [])) :
+    (Parse.parse_value W (encField f) (.val v) (encCtx o []) (.bool true)).map (decodePV f.name)
+      = .ok (parseValue Legacy.none W5 o f v) := by
+  gen_obligation "C05_gen_parse_value: the regenerated code (Utv.Gen) is no longer equal to the hand model here" by
+    have he := hw.enter
+    have h1 := C05_gen_get_on_error W o f
+    have h2 := C05_gen_is_required W o f hl
+    have h3 := C05_gen_get_default W o f false
+    unfold Parse.parse_value parseValue convert
+    cases hty : f.ty with
+    | none =>
+      simp only [getattr_ctx_options, bind, Except.bind, pure, Except.pure, ga_field, ga_deprecated, ga_type, ga_dmap,
+        ga_name, ga_excluded, truthy_bool, truthy_none, hty, Bool.false_eq_true, if_false, Bool.not_false, if_true]
+      simp [Except.map, decodePV, optOf, errsOf, encCtx, getattr, lookupAttr, pure, Except.pure]
+    | some t =>
+      have hc := hw.conv t v
+      cases hfp : W5.fp t v with
+      | some y =>
+        rw [hfp] at hc
+        simp only [getattr_ctx_options, bind, Except.bind, pure, Except.pure, ga_field, ga_deprecated, ga_type, ga_dmap,
+          ga_name, ga_excluded, ga_transformer, truthy_bool, truthy_none, truthy_cls, hty, he, hc, Bool.false_eq_true, if_false,
+          Bool.not_false, Bool.not_true, if_true, tryCatch, tryCatchThe, MonadExceptOf.tryCatch, Except.tryCatch]
+        simp only [hfp]
+        rfl
+      | none =>
+        rw [hfp] at hc
+        have hh := handle_error_collecting W o hcol []
+        cases hoe : getOnError o f <;> cases hreq : isRequired Legacy.none o f <;> cases hdf : getDefault o f false <;>
+          simp only [hoe, hreq, hdf] at h1 h2 h3 <;>
+          simp only [getattr_ctx_options, bind, Except.bind, pure, Except.pure, ga_field, ga_deprecated, ga_type, ga_dmap,
+            ga_name, ga_excluded, ga_transformer, ga_exclude, ga_preserve, truthy_bool, truthy_none, truthy_cls, hty, he, hc,
+            h1, h2, h3, hh, hw.copy, Bool.false_eq_true, if_false, Bool.not_false, Bool.not_true, if_true, tryCatch, tryCatchThe,
+            MonadExceptOf.tryCatch, Except.tryCatch, Exc.isA, List.contains_cons, List.contains_nil, encOnErr, eq, eqS,
+            List.nil_append] <;>
+          simp only [hfp, hoe, hreq, hdf] <;> rfl
+
+/-! ### `distinct_add` (utils/functional.py): `mkField`'s alias lists -/
+
+def encKey (k : Key) : OVal V := .int (k : Int)
+
+def encKeys (ks : List Key) : OVal V := .seq .list (ks.map encKey)
+
+theorem memS_keys (x : Key) (acc : List Key) :
+    memS (V := V) (encKey x) (acc.map encKey) = .ok (acc.contains x) := by
+  induction acc with
+  | nil => rfl
+  | cons a as ih =>
+    have he : Obj.eq (V := V) (encKey x) (encKey a) = .ok (decide (x = a)) := by
+      simp only [Obj.eq, eqS, encKey, intOf?, pure, Except.pure]
+      congr 1
+      by_cases h : x = a
+      · subst h; simp
+      · have h' : ¬ ((x : Int) = (a : Int)) := fun hh => h (Int.ofNat_inj.mp hh)
+        simp [h, h']
+    simp only [List.map_cons, memS, he, ih, bind, Except.bind, pure, Except.pure, List.contains_cons]
+    by_cases h : x = a
+    · subst h; simp
+    · simp [h]
+
+/-- the loop of `distinct_add`: an item not yet in the target is appended -/
+theorem forIn_distinct (g : Key → OVal V → M V (ForInStep (OVal V)))
+    (hg : ∀ (x : Key) (acc : List Key), g x (encKeys acc) =
+      .ok (.yield (encKeys (if acc.contains x then acc else acc ++ [x])))) :
+    ∀ (xs acc : List Key), forIn xs (encKeys acc) g = .ok (encKeys (distinctAdd acc xs)) := by
+  intro xs
+  induction xs with
+  | nil => intro acc; rfl
+  | cons x xs ih =>
+    intro acc
+    rw [List.forIn_cons, hg]
+    by_cases h : acc.contains x = true
+    · simp only [h, if_true, bind, Except.bind, ih, distinctAdd]
+    · simp only [h, Bool.false_eq_true, if_false, bind, Except.bind, ih, distinctAdd]
+
+/-- `distinct_add(target, items)` hands back `distinctAdd target items` (keys are the model's numbers) -/
+theorem C05_gen_distinct_add (W : Obj.World V) (acc xs : List Key) :
+    FunctionalObj.distinct_add W (encKeys acc) (encKeys xs) = .ok (encKeys (distinctAdd acc xs)) := by
+  gen_obligation "C05_gen_distinct_add: the regenerated code (Utv.Gen) is no longer equal to the hand model here" by
+    have hcont : ∀ (a : List Key) (y : Key), contains (V := V) (encKeys a) (encKey y) = .ok (a.contains y) := by
+      intro a y; simp only [contains, encKeys, memS_keys]
+    have happ : ∀ (a : List Key) (y : Key), append (V := V) (encKeys a) (encKey y) = .ok (encKeys (a ++ [y])) := by
+      intro a y; simp [append, encKeys, pure, Except.pure]
+    by_cases hx : xs = []
+    · subst hx; obj_simp [FunctionalObj.distinct_add, encKeys, distinctAdd]
+    · have hx' : (List.map (encKey (V := V)) xs).isEmpty = false := by simpa using hx
+      unfold FunctionalObj.distinct_add
+      obj_simp [encKeys, isinstance, SeqK.name, FunctionalObj.multi, iter, hx']
+      rw [show (OVal.seq SeqK.list (List.map encKey acc) : OVal V) = encKeys acc from rfl, forIn_distinct]
+      · rfl
+      · intro y a
+        rw [hcont]
+        by_cases h : y ∈ a
+        · simp [h]
+        · simp [h, happ]
 
 end Utv.GenEq.C05
